@@ -9,7 +9,9 @@
 //     never (not connected yet) | pending (queue created, NewStream held back by the host
 //     wrapper) | conn (connected floodsub peer, never in a mesh) | mesh | fanout |
 //     down (disconnected) | repending (reconnecting, NewStream held back) |
-//     gated (in the mesh, its writer blocked in Write with one popped RPC, more queued) |
+//     gated (its writer blocked in Write with one popped RPC and a backlog of >= 3 RPCs queued;
+//     bk = mesh | mesh-urgent (v1.2 peer, urgent IDONTWANTs + messages) | topic (flood publishing) |
+//     flood (floodsub peer) | directpeer | fanout; after BlacklistPeer the Writes are released one by one) |
 //     nostream (NewStream failed: no queue, but its GRAFT on the inbound stream was accepted, D6)
 //   - how   : api = PubSub.BlacklistPeer, direct = Add on the Blacklist object
 //     that was passed with pubsub.WithBlacklist (map: inside the event
@@ -68,6 +70,7 @@ type scenario struct {
 	By     string `json:"by"`
 	Stage  string `json:"stage"`
 	Impl   string `json:"impl"`
+	Bk     string `json:"bk"`   // gated only: what the backlog in the victim's queue is made of (mesh | mesh-urgent | topic | flood | directpeer | fanout)
 	Path   string `json:"path"` // queue (signed messages, validation queue) | direct (unsigned: pushMsg publishes at once)
 	Expire bool   `json:"expire"`
 }
@@ -85,17 +88,22 @@ type proxyBL struct {
 	lastN *atomic.Int64
 	exp   int64
 
-	mu   sync.Mutex
-	how  string
-	adds []M
+	mu     sync.Mutex
+	how    string
+	adds   []M
+	writes func(peer.ID) int // Write calls handed to the transport on streams to the peer so far
 }
 
 func (b *proxyBL) Add(p peer.ID) bool {
 	n := b.lastN.Load()
 	t := hnet.NowMs()
+	wr := 0
+	if b.writes != nil {
+		wr = b.writes(p)
+	}
 	ok := b.inner.Add(p)
 	b.mu.Lock()
-	b.adds = append(b.adds, M{"id": p, "how": b.how, "n": n, "t": t, "exp": b.exp, "ok": ok})
+	b.adds = append(b.adds, M{"id": p, "how": b.how, "n": n, "t": t, "exp": b.exp, "ok": ok, "wr": wr})
 	b.mu.Unlock()
 	return ok
 }
@@ -234,7 +242,7 @@ func (r *run) newIdleFake(name, proto string) {
 
 func (r *run) extra(w *world.World, line M) {
 	names := []string{victim, third, other}
-	alive, opened, blc := M{}, M{}, M{}
+	alive, opened, blc, writes := M{}, M{}, M{}, M{}
 	res := map[string]bool{}
 	// Contains on the real implementation, evaluated on the event loop (the map
 	// implementation is not safe for concurrent use)
@@ -248,10 +256,10 @@ func (r *run) extra(w *world.World, line M) {
 	for _, n := range names {
 		f := w.Fakes[n]
 		if f == nil {
-			alive[n], opened[n], blc[n] = 0, 0, false
+			alive[n], opened[n], blc[n], writes[n] = 0, 0, false, 0
 			continue
 		}
-		alive[n], opened[n], blc[n] = f.InboundAlive(), f.InboundTotal(), res[n]
+		alive[n], opened[n], blc[n], writes[n] = f.InboundAlive(), f.InboundTotal(), res[n], w.H.Writes(f.ID())
 	}
 	q := "none"
 	if r.capOK && r.capQ != nil {
@@ -265,7 +273,7 @@ func (r *run) extra(w *world.World, line M) {
 	r.px.mu.Lock()
 	bl := []any{}
 	for _, a := range r.px.adds {
-		bl = append(bl, M{"p": w.Names.P(a["id"].(peer.ID)), "how": a["how"], "n": a["n"], "t": a["t"], "exp": a["exp"], "ok": a["ok"]})
+		bl = append(bl, M{"p": w.Names.P(a["id"].(peer.ID)), "how": a["how"], "n": a["n"], "t": a["t"], "exp": a["exp"], "ok": a["ok"], "wr": a["wr"]})
 	}
 	r.px.mu.Unlock()
 	lp := M{}
@@ -278,7 +286,7 @@ func (r *run) extra(w *world.World, line M) {
 	if held == "" {
 		held = "none"
 	}
-	line["c16"] = M{"bl": bl, "blc": blc, "alive": alive, "opened": opened, "capq": q, "captured": r.capOK, "lp": lp, "held": held}
+	line["c16"] = M{"bl": bl, "blc": blc, "alive": alive, "opened": opened, "capq": q, "captured": r.capOK, "lp": lp, "held": held, "writes": writes}
 }
 
 func (r *run) setupVictim() {
@@ -316,12 +324,44 @@ func (r *run) setupVictim() {
 		w.H.HoldOpen(id())
 		r.do(M{"a": "peer", "p": victim, "dir": "in", "subs": subs})
 	case "gated":
-		r.do(M{"a": "peer", "p": victim, "proto": "v11", "dir": "in", "subs": subs})
-		r.do(M{"a": "graft", "p": victim, "t": "T1"})
+		// a backlog in the victim's outbound queue: its writes are gated (the writer sits inside
+		// Write with ONE popped RPC), then >= 3 more RPCs are queued for it
+		pub := "T1"
+		switch r.sc.Bk {
+		case "mesh", "":
+			r.do(M{"a": "peer", "p": victim, "proto": "v11", "dir": "in", "subs": subs})
+			r.do(M{"a": "graft", "p": victim, "t": "T1"})
+		case "mesh-urgent":
+			r.do(M{"a": "peer", "p": victim, "proto": "v12", "dir": "in", "subs": subs})
+			r.do(M{"a": "graft", "p": victim, "t": "T1"})
+		case "topic": // gossipsub peer in the topic, not in the mesh: reached by flood publishing
+			r.do(M{"a": "peer", "p": victim, "proto": "v11", "dir": "in", "subs": subs})
+		case "flood":
+			r.do(M{"a": "peer", "p": victim, "proto": "flood", "dir": "in", "subs": subs})
+		case "directpeer":
+			r.do(M{"a": "peer", "p": victim, "proto": "v11", "dir": "in", "subs": subs})
+			r.do(M{"a": "direct", "p": victim, "on": true})
+		case "fanout":
+			pub = "T2"
+			r.do(M{"a": "peer", "p": victim, "proto": "v11", "dir": "out", "subs": subs})
+			r.do(M{"a": "publish", "t": "T2", "m": "mf"})
+		default:
+			r.t.Fatalf("unknown backlog kind %q", r.sc.Bk)
+		}
 		r.do(M{"a": "gate", "p": victim, "on": true})
-		r.do(M{"a": "publish", "t": "T1", "m": "g1"})
-		r.do(M{"a": "publish", "t": "T1", "m": "g2"})
-		r.do(M{"a": "publish", "t": "T1", "m": "g3"})
+		r.do(M{"a": "publish", "t": pub, "m": "g1"}) // popped by the writer, blocked in Write
+		if r.sc.Bk == "mesh-urgent" {
+			// large messages of a bystander: an urgent IDONTWANT (priority class) and the forwarded
+			// message (normal class) are queued for the victim each time
+			for _, m := range []string{"b1", "b2", "b3"} {
+				r.do(M{"a": "msg", "p": third, "t": "T1", "m": m, "size": 100})
+			}
+		} else {
+			for _, m := range []string{"g2", "g3", "g4"} {
+				r.do(M{"a": "publish", "t": pub, "m": m})
+			}
+		}
+		r.do(M{"a": "hb"}) // whatever control traffic the heartbeat has for the victim is queued too
 	default:
 		r.t.Fatalf("unknown position %q", r.sc.Pos)
 	}
@@ -464,6 +504,13 @@ func (r *run) scenario() {
 		w.H.ReleaseOpen(vid)
 		r.x("releaseOpen", nil)
 	case "gated":
+		// let the blocked Write go, one Write per step, so that every frame that is written reaches
+		// the peer before anything can reset the stream; then remove the gate. The unchanged code lets
+		// exactly the one Write that was in progress finish; its next Pop returns ErrQueueClosed.
+		for i := 0; i < 6; i++ {
+			w.H.StepWrite(vid)
+			r.x("stepwrite", M{"k": i + 1})
+		}
 		r.do(M{"a": "gate", "p": victim, "on": false})
 	}
 
@@ -536,11 +583,17 @@ func runScenario(t *testing.T, out *vh.Out, idx int, sc scenario) {
 		} else {
 			sc.Path = "queue"
 		}
+		if sc.Pos != "gated" {
+			sc.Bk = ""
+		} else if sc.Bk == "" {
+			sc.Bk = "mesh"
+		}
 		r := &run{t: t, sc: sc, px: px, ts: &traps{}}
-		cfg := world.Config{Hosts: 6, Opts: opts}
-		w := world.New(t, out, idx, cfg, M{"pos": sc.Pos, "how": sc.How, "by": sc.By, "stage": sc.Stage, "impl": sc.Impl, "path": sc.Path,
+		cfg := world.Config{Hosts: 6, Opts: opts, FloodPublish: sc.Bk == "topic"}
+		w := world.New(t, out, idx, cfg, M{"pos": sc.Pos, "how": sc.How, "by": sc.By, "stage": sc.Stage, "impl": sc.Impl, "path": sc.Path, "bk": sc.Bk,
 			"expire": sc.Expire, "victim": victim, "expMs": px.exp})
 		r.w = w
+		px.writes = w.H.Writes
 		defer w.Close()
 		defer func() {
 			r.ts.releaseAll()
